@@ -2294,5 +2294,314 @@ theorem wired_killGlyph {ds} {h : Heap} (w : WiredX ds h) {l g : Id} {ng : Node}
       (by simp [hgl, hgd])).2.1]
     simp [hc, eg, owner_cleared ng knf]
 
+
+/-! ### A layer lets go of everything it owns -/
+
+/-- one turn of the loops in `Layer.endSelfNotificationObservation` -/
+def stepL (l : Id) (h : Heap) (k : Id) : Heap :=
+  match h.kindOf k with
+  | some .glyph => endGlyph h l k
+  | some .lib => detachSingleton h l k
+  | _ => h
+
+/-- the layer `l` of layer set `s` of font `f`, as the loop needs it -/
+structure LayerCtx (h : Heap) (l s f : Id) : Prop where
+  kl : h.kindOf l = some .layer
+  ol : h.ownerOf l = some s
+  ks : h.kindOf s = some .layerSet
+  os : h.ownerOf s = some f
+  kf : h.kindOf f = some .font
+
+theorem LayerCtx.centre {ds} {h : Heap} {l s f : Id} (c : LayerCtx h l s f) (st : Struct ds h) :
+    ancOf h .font l = some f := by
+  rw [ancOf_ne st c.ol (by rw [c.ks]; simp)]
+  exact ancOf_eq st c.os c.kf
+
+theorem LayerCtx.transfer {h h' : Heap} {l s f : Id} (c : LayerCtx h l s f)
+    (gl : h'.get l = h.get l) (gs : h'.get s = h.get s) (gf : h'.get f = h.get f) : LayerCtx h' l s f := by
+  obtain ⟨a, b, c1, d, e⟩ := c
+  exact ⟨by simpa [Heap.kindOf, gl] using a, by simpa [Heap.ownerOf, gl] using b,
+    by simpa [Heap.kindOf, gs] using c1, by simpa [Heap.ownerOf, gs] using d, by simpa [Heap.kindOf, gf] using e⟩
+
+/-- what is owned by a layer that has a centre has that centre -/
+theorem disp_of_owned_by_layer {ds} {h : Heap} (st : Struct ds h) {k l s f : Id} (c : LayerCtx h l s f)
+    (ho : h.ownerOf k = some l) : dispOf h k = some f := by
+  rw [disp_exact st]
+  obtain ⟨n, np, e, _, ep, _, ha⟩ := ownerOf_node st ho
+  have kp : np.kind = .layer := by have := c.kl; rw [kindOf_eq ep] at this; simpa using this
+  have k1 : h.kindOf k ≠ some .font := by
+    rw [kindOf_eq e]; intro hk
+    have : n.kind = .font := by simpa using hk
+    simp [kp, this, allowed] at ha
+  simp only [centreOf, k1, if_false]
+  rw [ancOf_ne st ho (by rw [c.kl]; simp)]
+  exact c.centre st
+
+theorem stepL_facts {ds} {h : Heap} {l s f k : Id} (w : WiredX (l :: ds) h) (c : LayerCtx h l s f)
+    (ho : h.ownerOf k = some l) (hkd : k ∉ l :: ds) :
+    WiredX (l :: ds) (stepL l h k) ∧
+    (∀ i, (stepL l h k).get i = if i = k ∨ h.ownerOf i = some k then (h.get i).map Node.cleared else h.get i) ∧
+    (∀ r ∈ (stepL l h k).regs, r ∈ h.regs) := by
+  obtain ⟨n, np, e, _, ep, _, ha⟩ := ownerOf_node w.toStruct ho
+  have kp : np.kind = .layer := by have := c.kl; rw [kindOf_eq ep] at this; simpa using this
+  have hd : dispOf h k ≠ none := by rw [disp_of_owned_by_layer w.toStruct c ho]; simp
+  unfold stepL
+  rw [kindOf_eq e]
+  cases hk : n.kind <;> simp [hk, kp, allowed, Kind.isLeaf] at ha ⊢
+  · -- a glyph
+    obtain ⟨w1, g1, r1⟩ := wired_endGlyph w e hk ho (by simp) hkd
+    exact ⟨w1, fun i => by rw [g1]; simp [hd], r1⟩
+  · -- the layer's lib
+    have kleaf : n.kind.isLeaf = true := by simp [hk, Kind.isLeaf]
+    refine ⟨wired_detachSingleton w e kleaf ho (by simp), fun i => ?_, fun r hr => regs_detachSingleton_sub hr⟩
+    rw [get_detachSingleton]
+    have := leaf_owns_nothing w.toStruct e kleaf i
+    by_cases e1 : i = k
+    · subst e1; simp [hd]
+    · simp [e1, Ne.symm e1, this]
+
+theorem fold_stepL {ds} {l s f : Id} (ks : List Id) (hnd : ks.Nodup) :
+    ∀ h, WiredX (l :: ds) h → LayerCtx h l s f → l ∉ ks → s ∉ ks → f ∉ ks →
+      (∀ k ∈ ks, h.ownerOf k = some l ∧ k ∉ l :: ds) →
+      WiredX (l :: ds) (ks.foldl (stepL l) h) ∧
+      (∀ k ∈ ks, (ks.foldl (stepL l) h).ownerOf k = none) ∧
+      (∀ i, i ∉ ks → (∀ k ∈ ks, h.ownerOf i ≠ some k) → (ks.foldl (stepL l) h).get i = h.get i) ∧
+      (∀ r ∈ (ks.foldl (stepL l) h).regs, r ∈ h.regs) := by
+  induction ks with
+  | nil => intro h w _ _ _ _ _; exact ⟨w, fun k hk => by simp at hk, fun i _ _ => rfl, fun r hr => hr⟩
+  | cons k ks ih =>
+    intro h w c hl hs hf hown
+    obtain ⟨hok, hkd⟩ := hown k (by simp)
+    obtain ⟨w1, g1, r1⟩ := stepL_facts w c hok hkd
+    have hkk : k ∉ ks := (List.nodup_cons.mp hnd).1
+    have lk : l ≠ k := fun e => hl (by simp [e])
+    have sk : s ≠ k := fun e => hs (by simp [e])
+    have fk : f ≠ k := fun e => hf (by simp [e])
+    have notowned : ∀ i, h.kindOf i ≠ some .glyph → h.kindOf i ≠ some .lib → ∀ j, h.ownerOf j ≠ some i → True := fun _ _ _ _ _ => trivial
+    -- l, s, f are not touched by the step
+    have osk : h.ownerOf s ≠ some k := by rw [c.os]; intro e; cases e; exact fk rfl
+    have olk : h.ownerOf l ≠ some k := by rw [c.ol]; intro e; cases e; exact sk rfl
+    have ofk : h.ownerOf f ≠ some k := by rw [ownerOf_font c.kf]; simp
+    have c1 : LayerCtx (stepL l h k) l s f :=
+      c.transfer (by rw [g1]; simp [lk, olk]) (by rw [g1]; simp [sk, osk]) (by rw [g1]; simp [fk, ofk])
+    have hown1 : ∀ k' ∈ ks, (stepL l h k).ownerOf k' = some l ∧ k' ∉ l :: ds := fun k' hk' => by
+      obtain ⟨a, b⟩ := hown k' (by simp [hk'])
+      have ne : k' ≠ k := fun e => hkk (e ▸ hk')
+      have : h.ownerOf k' ≠ some k := by rw [a]; intro e; cases e; exact lk rfl
+      refine ⟨?_, b⟩
+      have e1 : (stepL l h k).get k' = h.get k' := by rw [g1]; simp [ne, this]
+      simp only [Heap.ownerOf, e1]
+      exact a
+    obtain ⟨w2, o2, g2, r2⟩ := ih (List.nodup_cons.mp hnd).2 (stepL l h k) w1 c1
+      (fun hm => hl (by simp [hm])) (fun hm => hs (by simp [hm])) (fun hm => hf (by simp [hm])) hown1
+    rw [List.foldl_cons]
+    refine ⟨w2, fun k' hk' => ?_, fun i hi hno => ?_, fun r hr => r1 r (r2 r hr)⟩
+    · rcases List.mem_cons.mp hk' with rfl | hk'
+      · -- k itself: cleared by the step, untouched afterwards
+        have e0 : (stepL l h k').get k' = (h.get k').map Node.cleared := by rw [g1]; simp
+        have : (List.foldl (stepL l) (stepL l h k') ks).get k' = (stepL l h k').get k' := by
+          refine g2 k' hkk (fun k2 hk2 => ?_)
+          obtain ⟨n, e, _⟩ := ownerOf_some hok
+          have kn : n.kind ≠ .font := by
+            obtain ⟨_, _, _, _, _, _, knf⟩ := owner_kind w.toStruct e (by rw [← ownerOf_eq e]; exact hok)
+            exact knf
+          simp [Heap.ownerOf, e0, e, owner_cleared n kn]
+        obtain ⟨n, e, _⟩ := ownerOf_some hok
+        have kn : n.kind ≠ .font := by
+          obtain ⟨_, _, _, _, _, _, knf⟩ := owner_kind w.toStruct e (by rw [← ownerOf_eq e]; exact hok)
+          exact knf
+        simp [Heap.ownerOf, this, e0, e, owner_cleared n kn]
+      · exact o2 k' hk'
+    · have hik : i ≠ k := fun e => hi (by simp [e])
+      have hoik : h.ownerOf i ≠ some k := hno k (by simp)
+      have e1 : (stepL l h k).get i = h.get i := by rw [g1]; simp [hik, hoik]
+      rw [g2 i (fun hm => hi (by simp [hm])) (fun k2 hk2 => ?_), e1]
+      simp only [Heap.ownerOf, e1]
+      exact hno k2 (by simp [hk2])
+
+
+/-- a container `p` lets go of `x` (and of what `x` owns) and unlists it; the letting go is only needed for
+the two dying sets that occur -/
+theorem wired_release_unlist2 {ds} {h hR : Heap} (w : WiredX ds h) {p x : Id}
+    (hstepA : p ∈ ds → WiredX ds hR)
+    (hstepB : p ∉ ds → WiredX (p :: ds) hR)
+    (hxp : x ≠ p)
+    (gp : hR.get p = h.get p)
+    (hkeep : ∀ y, y ≠ x → h.ownerOf y = some p → hR.ownerOf y = some p)
+    (hown : hR.ownerOf x ≠ some p) : WiredX ds (hR.unlist p x) := by
+  by_cases hpd : p ∈ ds
+  · exact wired_unlist (hstepA hpd) hown
+  · have w1 : WiredX (p :: ds) hR := hstepB hpd
+    have w2 : WiredX (p :: ds) (hR.unlist p x) := wired_unlist w1 hown
+    refine wired_undying w2 (fun hal y hy => ?_)
+    cases ep : h.get p with
+    | none =>
+      exfalso
+      rw [Heap.kidsOf, get_unlist] at hy
+      simp [gp, ep] at hy
+    | some np =>
+      have hy' : y ∈ np.kids ∧ y ≠ x := by
+        rw [Heap.kidsOf, get_unlist] at hy
+        simp [gp, ep] at hy
+        exact hy
+      have hal0 : h.alive p := by
+        obtain ⟨n3, e3, hal3⟩ := hal
+        rw [get_unlist] at e3
+        simp [gp, ep] at e3
+        exact ⟨np, ep, by subst e3; simpa [owner] using hal3⟩
+      have hyp : y ≠ p := fun e => by
+        subst e
+        obtain ⟨ny, eny, hay⟩ := w.kKids y np y ep hy'.1
+        rw [ep] at eny; cases eny
+        cases hk : np.kind <;> simp [hk, allowed, Kind.isLeaf] at hay
+      have := w.down p y hal0 hpd (by rw [kidsOf_eq ep]; exact hy'.1)
+      have h2 := hkeep y hy'.2 this
+      simp only [Heap.ownerOf, get_unlist, Ne.symm hyp, if_false]
+      exact h2
+
+theorem killLayer_eq (h : Heap) (s l : Id) :
+    killLayer h s l =
+      (let h0 := match h.storedFont s with
+        | some f => unobserve h l f (namesFor h f l)
+        | none => h
+      match dispOf h0 l with
+      | none => h0.unlist s l
+      | some _ =>
+        (endSelf (((unobserve h0 l s (namesFor h0 s l)).kidsOf l).foldl (stepL l) (unobserve h0 l s (namesFor h0 s l))) l).unlist s l) := by
+  unfold killLayer stepL
+  rfl
+
+theorem layer_kid_kind {ds} {h : Heap} (st : Struct ds h) {l k : Id} {nl : Node} (el : h.get l = some nl)
+    (kl : nl.kind = .layer) (hk : k ∈ nl.kids) : h.kindOf k = some .glyph ∨ h.kindOf k = some .lib := by
+  obtain ⟨nk, ek, ha⟩ := st.kKids l nl k el hk
+  rw [kindOf_eq ek]
+  cases hkk : nk.kind <;> simp [kl, hkk, allowed] at ha ⊢
+
+theorem wired_killLayer {ds} {h : Heap} (w : WiredX ds h) {l s f : Id} (c : LayerCtx h l s f) (hld : l ∉ ds)
+    (hkd : ∀ k ∈ h.kidsOf l, k ∉ ds) : WiredX ds (killLayer h s l) := by
+  rw [killLayer_eq]
+  obtain ⟨nl, el, knl⟩ := kindOf_some c.kl
+  obtain ⟨nS, eS, knS⟩ := kindOf_some c.ks
+  have sf : h.storedFont s = some f := by
+    have := c.os; rw [ownerOf_eq eS] at this
+    simp only [owner, knS] at this
+    simp [Heap.storedFont, eS, this]
+  simp only [sf]
+  let h0 := unobserve h l f (namesFor h f l)
+  have g0 : ∀ i, h0.get i = h.get i := fun i => by simp [h0]
+  have dl : dispOf h l = some f := by
+    rw [disp_exact w.toStruct]; simp [centreOf, c.kl, c.centre w.toStruct]
+  have d0 : dispOf h0 l = some f := by rw [dispOf_congr g0]; exact dl
+  show WiredX ds (match dispOf h0 l with
+      | none => h0.unlist s l
+      | some _ => (endSelf (((unobserve h0 l s (namesFor h0 s l)).kidsOf l).foldl (stepL l) (unobserve h0 l s (namesFor h0 s l))) l).unlist s l)
+  rw [d0]
+  simp only
+  let h1 := unobserve h0 l s (namesFor h0 s l)
+  have g1 : ∀ i, h1.get i = h.get i := fun i => by simp [h1, g0]
+  have kids1 : h1.kidsOf l = nl.kids := by simp [Heap.kidsOf, g1, el]
+  have hls : l ≠ s := fun e => by have := c.kl; rw [e, c.ks] at this; cases this
+  have hlf : l ≠ f := fun e => by have := c.kl; rw [e, c.kf] at this; cases this
+  have hsf : s ≠ f := fun e => by have := c.ks; rw [e, c.kf] at this; cases this
+  have kk : ∀ k, k ∈ nl.kids → h.kindOf k = some .glyph ∨ h.kindOf k = some .lib :=
+    fun k hk => layer_kid_kind w.toStruct el knl hk
+  have lks : l ∉ nl.kids := fun hm => by rcases kk l hm with e | e <;> (rw [c.kl] at e; cases e)
+  have sks : s ∉ nl.kids := fun hm => by rcases kk s hm with e | e <;> (rw [c.ks] at e; cases e)
+  have fks : f ∉ nl.kids := fun hm => by rcases kk f hm with e | e <;> (rw [c.kf] at e; cases e)
+  have lalive : h.alive l := ⟨nl, el, Or.inr (by rw [← ownerOf_eq el, c.ol]; simp)⟩
+  have regs1 : ∀ r ∈ h1.regs, r ∈ h.regs := fun r hr => (mem_unobserve (mem_unobserve hr).1).1
+  have knf : nl.kind ≠ .font := by rw [knl]; simp
+  -- the part before the unlisting, for any dying set that holds s and not l
+  have hstep : ∀ ds', s ∈ ds' → l ∉ ds' → (∀ k ∈ nl.kids, k ∉ ds') → WiredX ds' h →
+      WiredX ds' (endSelf (nl.kids.foldl (stepL l) h1) l) ∧
+      (∀ i, i ≠ l → i ∉ nl.kids → (∀ k ∈ nl.kids, h.ownerOf i ≠ some k) →
+        (endSelf (nl.kids.foldl (stepL l) h1) l).get i = h.get i) ∧
+      (endSelf (nl.kids.foldl (stepL l) h1) l).get l = some nl.cleared := by
+    intro ds' hs hl hk w'
+    have w1 : WiredX (l :: ds') h1 :=
+      wired_mono (wired_regs w' g1 (fun r hr => Or.inl (regs1 r hr))) (fun d hd => List.mem_cons_of_mem _ hd)
+    have c1 : LayerCtx h1 l s f := c.transfer (g1 l) (g1 s) (g1 f)
+    have hown : ∀ k ∈ nl.kids, h1.ownerOf k = some l ∧ k ∉ l :: ds' := fun k hkm => by
+      refine ⟨?_, ?_⟩
+      · simp only [Heap.ownerOf, g1]
+        exact w'.down l k lalive hl (by rw [kidsOf_eq el]; exact hkm)
+      · have : k ≠ l := fun e => lks (e ▸ hkm)
+        simp [this, hk k hkm]
+    obtain ⟨w2, o2, g2, r2⟩ := fold_stepL (s := s) (f := f) nl.kids (w.kidsNodup l nl el) h1 w1 c1 lks sks fks hown
+    let h2 := nl.kids.foldl (stepL l) h1
+    have ol1 : ∀ k ∈ nl.kids, h1.ownerOf l ≠ some k := fun k hkm => by
+      simp only [Heap.ownerOf, g1]
+      have := c.ol; simp only [Heap.ownerOf] at this; rw [this]
+      intro e; cases e; exact sks hkm
+    have e2l : h2.get l = some nl := by
+      show (nl.kids.foldl (stepL l) h1).get l = _
+      rw [g2 l lks ol1, g1, el]
+    have hz : ∀ i, h2.ownerOf i ≠ some l := by
+      intro i hi
+      obtain ⟨ni, ei, eo⟩ := ownerOf_some hi
+      have hm := w2.up i ni l ei eo
+      rw [kidsOf_eq e2l] at hm
+      have := o2 i hm
+      rw [hi] at this; cases this
+    have hlist : ∀ p, l ∈ h2.kidsOf p → h2.alive p → p ∈ l :: ds' := by
+      intro p hp hal
+      by_cases hpd : p ∈ l :: ds'
+      · exact hpd
+      · have := w2.down p l hal hpd hp
+        have hol : h2.ownerOf l = some s := by rw [ownerOf_eq e2l, ← ownerOf_eq el]; exact c.ol
+        rw [hol] at this; cases this
+        exact List.mem_cons_of_mem _ hs
+    have hself : ∀ r ∈ h2.regs, r.observable = l → r.name = .all ∧ r.observer = l := by
+      intro r hr hx
+      have hr1 : r ∈ h1.regs := r2 r hr
+      obtain ⟨hr0, hnot1⟩ := mem_unobserve hr1
+      obtain ⟨hrr, hnot0⟩ := mem_unobserve hr0
+      have ok := w.regSound r hrr
+      have cc := regOK_centre w.toStruct ok
+      rw [hx] at cc
+      rcases ok.2 with ⟨q1, q2⟩ | ⟨q1, q2⟩
+      · exact ⟨q1, by rw [q2, hx]⟩
+      · exfalso
+        rw [hx] at q1 q2
+        rcases q2 with q2 | ⟨_, q2⟩
+        · rw [c.ol] at q2; cases q2
+          refine hnot1 r.centre (by rw [dispOf_congr g0]; exact cc) ⟨rfl, rfl, hx, ?_⟩
+          rw [namesFor_congr g0]; exact q1
+        · rw [c.centre w.toStruct] at q2; cases q2
+          exact hnot0 r.centre cc ⟨rfl, rfl, hx, q1⟩
+    have w3 : WiredX (l :: ds') (endSelf h2 l) :=
+      wired_endSelf w2 e2l knf hz hlist (fun i => rfl) (fun r hr => hr) hself
+    have gl3 : (endSelf h2 l).get l = some nl.cleared := by rw [get_endSelf]; simp [e2l]
+    refine ⟨?_, fun i hil hik hno => ?_, gl3⟩
+    · refine wired_undying w3 (fun hal => ?_)
+      exfalso
+      obtain ⟨n3, e3, hal3⟩ := hal
+      rw [gl3] at e3; cases e3
+      rcases hal3 with hal3 | hal3
+      · simp [Node.cleared, knl] at hal3
+      · exact hal3 (owner_cleared nl knf)
+    · rw [get_endSelf]
+      simp only [Ne.symm hil, if_false]
+      show (nl.kids.foldl (stepL l) h1).get i = _
+      rw [g2 i hik (fun k hkm => by simp only [Heap.ownerOf, g1]; exact hno k hkm), g1]
+  rw [kids1]
+  have hkd' : ∀ k ∈ nl.kids, k ∉ ds := fun k hk => hkd k (by rw [kidsOf_eq el]; exact hk)
+  have base := hstep (s :: ds) (by simp) (by simp [hls, hld])
+    (fun k hk => by
+      have : k ≠ s := fun e => sks (e ▸ hk)
+      simp [this, hkd' k hk])
+    (wired_mono w (fun d hd => List.mem_cons_of_mem _ hd))
+  refine wired_release_unlist2 w (fun hs => (hstep ds hs hld hkd' w).1) (fun _ => base.1) hls ?_ ?_ ?_
+  · rw [base.2.1 s (Ne.symm hls) sks (fun k hk => by rw [c.os]; intro e; cases e; exact fks hk)]
+  · intro y hy hoy
+    have hyk : y ∉ nl.kids := fun hm => by
+      have := w.down l y lalive hld (by rw [kidsOf_eq el]; exact hm)
+      rw [hoy] at this; cases this; exact hls rfl
+    have := base.2.1 y hy hyk (fun k hk => by rw [hoy]; intro e; cases e; exact sks hk)
+    show ((endSelf (nl.kids.foldl (stepL l) h1) l).get y).bind owner = some s
+    rw [this]; exact hoy
+  · show ¬ ((endSelf (nl.kids.foldl (stepL l) h1) l).get l).bind owner = some s
+    rw [base.2.2]; simp [owner_cleared nl knf]
+
 end Parents
 end DefconModel
